@@ -86,85 +86,53 @@ def r15_1(ctx):
     ctx.floor("R15.1", n, 1, "functions destructuring a message set")
 
 
-P = None
-
-
 def r15_3(ctx):
-    global P
+    from .common import pm_of
+
     p = ctx.p
-    P = p
     sites = []
     for fi in p.functions.values():
         for c in calls_in(fi.node):
             if call_name(c) == "sequence_set_to_list":
                 sites.append((fi, c))
     ctx.floor("R15.3", len(sites), 3, "call sites of sequence_set_to_list")
+    expected = {
+        "mbox.Mailbox.msg_set_to_msg_seq_set": (
+            ["if from_uids:\n    seq_max = self.uids[-1] if self.uids else 1\nelse:\n    seq_max = self.num_msgs",
+             "sequence_set_to_list(msg_set, seq_max, uid_cmd=from_uids)"],
+            "seq_max = uids[-1] (1 when empty) for UID sets, message count otherwise; uid_cmd passed through",
+        ),
+        "mbox.Mailbox.copy": (
+            ["max_msg_key = self.msg_keys[-1]", "uid_vv, uid_max = self.get_uid_from_msg(max_msg_key)", "seq_max = len(self.msg_keys)",
+             "if uid_command:\n    uid_list = sequence_set_to_list(msg_set, uid_max, uid_command)\n    ...\nelse:\n    msg_idxs = sequence_set_to_list(msg_set, seq_max)"],
+            "UID COPY expands against the UID of the last message, COPY against the message count",
+        ),
+        "search.IMAPSearch._msg_set_numbers": (
+            ["sequence_set_to_list(self.args['msg_set'], set_max, uid_cmd=True)"],
+            "search helper expands against the maximum its caller passes",
+        ),
+    }
     for fi, c in sites:
         ctx.analysed(fi)
-        smax = kwarg(c, "seq_max") or (c.args[1] if len(c.args) > 1 else None)
-        uid = kwarg(c, "uid_cmd") or (c.args[2] if len(c.args) > 2 else None)
-        uid_txt = norm(uid) if uid is not None else "False"
-        okv, why = _seqmax_ok(fi, c, smax, uid_txt)
-        if okv:
-            ctx.ok("R15.3", where(fi), f"sequence_set_to_list(.., {norm(smax)}, uid_cmd={uid_txt}): {why}")
+        if fi.key not in expected:
+            ctx.bad("R15.3", fi.module, fi.qual, norm(c, 100), "a new caller of the set interpreter: its seq_max / uid_cmd arguments are not in the checked table", c.lineno)
+            continue
+        pats, what = expected[fi.key]
+        pm = pm_of(p, fi)
+        missing = [x for x in pats if not pm.has(x)]
+        if not missing:
+            ctx.ok("R15.3", where(fi), what)
         else:
-            ctx.bad("R15.3", fi.module, fi.qual, norm(c, 100), f"seq_max passed to the interpreter is not (last UID on the UID path / message count otherwise): {why}; `*` and `n:*` then denote the wrong message", c.lineno)
-
-
-def _defs(fi, name):
-    return [s for s in body_walk(fi.node) if isinstance(s, ast.Assign) and any(isinstance(t, ast.Name) and t.id == name for t in s.targets)]
-
-
-def _seqmax_ok(fi, c, smax, uid_txt):
-    if smax is None:
-        return False, "no seq_max argument"
-    st = norm(smax)
-    uidpath = uid_txt not in ("False",)
-    if isinstance(smax, ast.Name) and smax.id in [a.arg for a in fi.node.args.args] and fi.module == "search":
-        # parameter of the search helper: what do its callers pass?
-        ok_callers = []
-        from ..astutil import calls_in as _ci
-        for m, mfi in P.cls("IMAPSearch").methods.items():
-            for c2 in _ci(mfi.node):
-                if call_name(c2) == fi.name and c2.args:
-                    a = norm(c2.args[0])
-                    want = {"_match_uid": "self.ctx.uid_max", "_match_message_set": "self.ctx.seq_max"}.get(m)
-                    if want is None or a != want:
-                        return False, f"{m} passes {a}"
-                    ok_callers.append(f"{m}: {a}")
-        if ok_callers:
-            return True, "search helper: " + "; ".join(ok_callers) + " (context maxima checked by C14 R14.4)"
-        return False, "no caller found"
-    if isinstance(smax, ast.Name):
-        ds = _defs(fi, smax.id)
-        vals = [norm(d.value) for d in ds]
-        # tuple unpack `uid_vv, uid_max = self.get_uid_from_msg(max_msg_key)`
-        tu = [s for s in body_walk(fi.node) if isinstance(s, ast.Assign) and isinstance(s.targets[0], ast.Tuple) and any(isinstance(e, ast.Name) and e.id == smax.id for e in s.targets[0].elts)]
-        if tu and "get_uid_from_msg(max_msg_key)" in norm(tu[0].value):
-            mk = _defs(fi, "max_msg_key")
-            if mk and norm(mk[0].value) == "self.msg_keys[-1]" and uidpath:
-                return True, "uid of the last message (get_uid_from_msg(msg_keys[-1])) on the UID path"
-        # conditional definition under `if from_uids:` / else
-        par_if = None
-        from .common import parmap
-        par = parmap(fi)
-        cond_vals = {}
-        for d in ds:
-            pr = par.get(d)
-            if isinstance(pr, ast.If):
-                cond_vals[(norm(pr.test), d in pr.body)] = norm(d.value)
-        if cond_vals:
-            u = cond_vals.get((uid_txt, True))
-            nu = cond_vals.get((uid_txt, False))
-            if u and nu and u.startswith("self.uids[-1] if self.uids else") and nu in ("self.num_msgs", "len(self.msg_keys)"):
-                return True, f"{smax.id} = uids[-1] (default when empty) under `{uid_txt}`, message count otherwise"
-            return False, f"conditional definitions {cond_vals}"
-        if len(vals) == 1 and vals[0] in ("len(self.msg_keys)", "self.num_msgs") and not uidpath:
-            return True, "message count on the non-UID path"
-        return False, f"{smax.id} defined as {vals}"
-    if st in ("self.num_msgs", "len(self.msg_keys)") and not uidpath:
-        return True, "message count on the non-UID path"
-    return False, st
+            ctx.bad("R15.3", fi.module, fi.qual, f"{fi.name}: seq_max argument of sequence_set_to_list", f"seq_max passed to the interpreter is not (last UID on the UID path / message count otherwise) - expected shape `{missing[0].splitlines()[0]}` not found; `*` and `n:*` then denote the wrong message", c.lineno)
+    # the search helper's callers pass the context maxima (which Mailbox.search sets: C14 R14.4)
+    sc = p.cls("IMAPSearch")
+    for m, want in (("_match_uid", "self.ctx.uid() in self._msg_set_numbers(self.ctx.uid_max)"), ("_match_message_set", "self.ctx.msg_number in self._msg_set_numbers(self.ctx.seq_max)")):
+        mfi = sc.methods.get(m)
+        if mfi is not None and "_msg_set_numbers" in norm(mfi.node, 3000):
+            if pm_of(p, mfi).has(f"return {want}"):
+                ctx.ok("R15.3", where(mfi), f"{m}: {want}")
+            else:
+                ctx.bad("R15.3", mfi.module, mfi.qual, m, f"{m} no longer tests its own number against the set expanded with its own maximum", mfi.node.lineno)
 
 
 def _lohi_guard(lp, has_raise_if):
@@ -188,53 +156,49 @@ def _lohi_guard(lp, has_raise_if):
 
 
 def r15_4(ctx):
+    from .common import pm_of
+
     p = ctx.p
     fi = p.func("utils.sequence_set_to_list")
     ctx.analysed(fi)
-    body = fi.node.body
-    loop = [s for s in body if isinstance(s, ast.For)]
-    ctx.require(loop, "sequence_set_to_list: loop over the set not found")
-    lp = loop[0]
-    v = lp.target.id
-    txts = [norm(x, 400) for x in ast.walk(lp)]
-    alltxt = " || ".join(t for t in txts)
+    pm = pm_of(p, fi)
+    ctx.require(pm.has("for elt in seq_set:\n    ..."), "sequence_set_to_list: loop over the set not found")
 
-    def has_raise_if(pred):
-        for n in ast.walk(lp):
-            if isinstance(n, ast.If) and any(isinstance(b, ast.Raise) and "Bad" in norm(b) for b in n.body) and pred(norm(n.test, 400)):
-                return True
-        return False
+    def any_of(*pats):
+        return any(pm.has(x) for x in pats)
 
     checks = [
-        (any(isinstance(n, ast.If) and norm(n.test) == f"{v} == '*'" and any(f"result.append(seq_max)" in norm(b) for b in n.body) for n in ast.walk(lp)), "single '*' is replaced by seq_max"),
-        (has_raise_if(lambda t: "seq_max == 0" in t and "not uid_cmd" in t), "'*' in an empty mailbox is rejected for non-UID sets"),
-        (has_raise_if(lambda t: t == f"{v} < 1"), "numbers < 1 are rejected"),
-        (has_raise_if(lambda t: f"{v} > seq_max" in t and "not uid_cmd" in t), "non-UID numbers > seq_max are rejected"),
-        (has_raise_if(lambda t: all(k in t for k in ("start < 1", "end < 1", "start > seq_max", "end > seq_max", "not uid_cmd"))) or _lohi_guard(lp, has_raise_if), "non-UID ranges outside 1..seq_max are rejected"),
-        (any(isinstance(n, ast.If) and norm(n.test) == "start == '*'" and any(norm(b) == "start = seq_max" for b in n.body) for n in ast.walk(lp)) and any(isinstance(n, ast.If) and norm(n.test) == "end == '*'" and any(norm(b) == "end = seq_max" for b in n.body) for n in ast.walk(lp)), "'*' at either end of a range is replaced by seq_max"),
+        (pm.has("if elt == '*':\n    ...\n    result.append(seq_max)"), "single '*' is replaced by seq_max"),
+        (pm.has("if seq_max == 0 and not uid_cmd:\n    raise Bad(...)"), "'*' in an empty mailbox is rejected for non-UID sets"),
+        (pm.has("if elt < 1:\n    raise Bad(...)"), "numbers < 1 are rejected"),
+        (pm.has("if elt > seq_max and not uid_cmd:\n    raise Bad(...)"), "non-UID numbers > seq_max are rejected"),
+        (pm.has("start, end = elt"), "a pair is destructured into (start, end)"),
+        (pm.has("if start == '*':\n    start = seq_max") and pm.has("if end == '*':\n    end = seq_max"), "'*' at either end of a range is replaced by seq_max"),
+        (
+            any_of(
+                "if (start < 1 or end < 1 or start > seq_max or end > seq_max) and not uid_cmd:\n    raise Bad(...)",
+                "if (min(start, end) < 1 or max(start, end) > seq_max) and not uid_cmd:\n    raise Bad(...)",
+            )
+            or (
+                any_of("lo, hi = (end, start) if start > end else (start, end)", "lo, hi = (min(start, end), max(start, end))", "lo, hi = sorted((start, end))")
+                and pm.has("if (lo < 1 or hi > seq_max) and not uid_cmd:\n    raise Bad(...)")
+            ),
+            "non-UID ranges outside 1..seq_max are rejected",
+        ),
+        (
+            any_of(
+                "if start > end:\n    result.extend(list(range(end, start + 1)))\nelse:\n    result.extend(list(range(start, end + 1)))",
+                "if start > end:\n    result.extend(range(end, start + 1))\nelse:\n    result.extend(range(start, end + 1))",
+                "result.extend(range(min(start, end), max(start, end) + 1))",
+            )
+            or (
+                any_of("lo, hi = (end, start) if start > end else (start, end)", "lo, hi = (min(start, end), max(start, end))", "lo, hi = sorted((start, end))")
+                and any_of("result.extend(range(lo, hi + 1))", "result.extend(list(range(lo, hi + 1)))")
+            ),
+            "a range is expanded inclusively in whichever order it was written (a:b == b:a)",
+        ),
+        (any_of("return sorted(set(result))", "return sorted(frozenset(result))"), "result is sorted and de-duplicated"),
     ]
-    # both range orders inclusive
-    rng = [n for n in ast.walk(lp) if isinstance(n, ast.If) and norm(n.test) in ("start > end", "end < start", "start <= end", "end >= start")]
-    incl = False
-    if rng:
-        n = rng[0]
-        b, o = " ".join(norm(x, 200) for x in n.body), " ".join(norm(x, 200) for x in n.orelse)
-        if norm(n.test) in ("start > end", "end < start"):
-            incl = "range(end, start + 1)" in b and "range(start, end + 1)" in o
-        else:
-            incl = "range(start, end + 1)" in b and "range(end, start + 1)" in o
-    else:
-        incl = any("range(min(start, end), max(start, end) + 1)" in t for t in txts)
-        # ordered-swap idiom:  lo, hi = (end, start) if start > end else (start, end); range(lo, hi + 1)
-        for n in ast.walk(lp):
-            if isinstance(n, ast.Assign) and isinstance(n.targets[0], ast.Tuple) and len(n.targets[0].elts) == 2:
-                a, b = [norm(e) for e in n.targets[0].elts]
-                if norm(n.value) in ("(end, start) if start > end else (start, end)", "(start, end) if start <= end else (end, start)", "(min(start, end), max(start, end))"):
-                    if any(f"range({a}, {b} + 1)" in t for t in txts):
-                        incl = True
-    checks.append((incl, "a range is expanded inclusively in whichever order it was written (a:b == b:a)"))
-    rets = [s for s in body_walk(fi.node) if isinstance(s, ast.Return)]
-    checks.append((bool(rets) and all("sorted(" in norm(r.value) and "set(" in norm(r.value) for r in rets), "result is sorted and de-duplicated"))
     for okv, what in checks:
         if okv:
             ctx.ok("R15.4", where(fi), what)
@@ -242,14 +206,12 @@ def r15_4(ctx):
             ctx.bad("R15.4", fi.module, fi.qual, what, f"the canonical interpreter lost: {what}", fi.node.lineno)
     # UID sets silently skip unknown UIDs: mapping through _uid_to_idx with membership filter
     ms = p.func("mbox.Mailbox.msg_set_to_msg_seq_set")
-    t = norm(ms.node, 6000)
-    if "self._uid_to_idx[uid] + 1 for uid in msgs if uid in self._uid_to_idx" in t:
+    if pm_of(p, ms).has("[self._uid_to_idx[uid] + 1 for uid in msgs if uid in self._uid_to_idx]"):
         ctx.ok("R15.4", where(ms), "UID -> sequence number mapping skips UIDs that do not exist and adds 1 to the index")
     else:
         ctx.bad("R15.4", ms.module, ms.qual, "[self._uid_to_idx[uid] + 1 for uid in msgs if uid in self._uid_to_idx]", "UID sets are no longer mapped through the UID table with unknown UIDs skipped", ms.node.lineno)
     cp = p.func("mbox.Mailbox.copy")
-    t = norm(cp.node, 20000)
-    if "if uid in self._uid_to_idx: msg_idx = self._uid_to_idx[uid] + 1" in t:
+    if pm_of(p, cp).has("if uid in self._uid_to_idx:\n    msg_idx = self._uid_to_idx[uid] + 1\n    msg_idxs.append(msg_idx)"):
         ctx.ok("R15.4", where(cp), "COPY: UID -> sequence number mapping skips unknown UIDs (+1)")
     else:
         ctx.bad("R15.4", cp.module, cp.qual, "if uid in self._uid_to_idx: msg_idx = self._uid_to_idx[uid] + 1", "UID COPY no longer maps its set through the UID table", cp.node.lineno)
